@@ -374,6 +374,7 @@ func run(r *lib.Run) {
 		go func(d int) { defer dwg.Done(); directedLegacyAsker(r, d) }(d)
 	}
 	dwg.Wait()
+	realAdaptersNotHeld(r)
 	r.Extra("exchanges_by_pairing_and_policy", pairSeen)
 	r.Extra("worlds", len(specs))
 	failMu.Lock()
